@@ -122,6 +122,9 @@ structure OtBody (s : Sys) : Prop where
   /-- the recorded start of an ingest task is the recorded start of its observation -/
   recAst : ∀ o i rec x, s.task? (.ingest o i) = some rec → rec.ast = some x →
     ∃ ob a, s.obs? o = some ob ∧ ob.ast = some a ∧ x = ((a : Nat) : Time)
+  /-- F13: a body that has ended stamped the finish of its task: the time of its last block + 1 -/
+  ended : ∀ r ∈ s.procs, ∀ o i m c ph tot, r.k = .doWork (.ingest o i) m c ph tot → r.alive = false →
+    ∃ rec, s.task? (.ingest o i) = some rec ∧ rec.aft = some (r.wake + 1)
 
 theorem otBody_start (s0 : Sys) (hw : WFConfig s0) : OtBody s0.start := by
   have hp := start_procs s0 hw
@@ -141,6 +144,10 @@ theorem otBody_start (s0 : Sys) (hw : WFConfig s0) : OtBody s0.start := by
     unfold task? at hrec
     rw [ht] at hrec
     simp at hrec
+  · intro r hr o i m c ph tot hk
+    rw [hp] at hr
+    simp only [List.mem_cons, List.not_mem_nil, or_false] at hr
+    rcases hr with rfl | rfl | rfl | rfl | rfl <;> simp at hk
 
 theorem otBody_step {s : Sys} (hs : SInv s) (hti : ILTI s) (hA : OtAst s) (h : OtBody s) {pid : Nat}
     {p : Proc} (hp : s.proc? pid = some p) (ha : p.alive = true)
@@ -179,7 +186,7 @@ theorem otBody_step {s : Sys} (hs : SInv s) (hti : ILTI s) (hA : OtAst s) (h : O
   -- the record of an ingest task whose body is not the process that ran keeps its start stamp
   have hrecKeep : ∀ o i rec0, s.task? (.ingest o i) = some rec0 →
       (∀ m preds ph tot, p.k ≠ .doWork (.ingest o i) m preds ph tot) →
-      ∃ rec, (s.resume pid orc).1.task? (.ingest o i) = some rec ∧ rec.ast = rec0.ast := by
+      ∃ rec, (s.resume pid orc).1.task? (.ingest o i) = some rec ∧ rec.ast = rec0.ast ∧ rec.aft = rec0.aft := by
     intro o i rec0 hrec0 hne
     rw [htask?]
     by_cases htag : p.k.tag = "doWork"
@@ -189,15 +196,15 @@ theorem otBody_step {s : Sys} (hs : SInv s) (hti : ILTI s) (hA : OtAst s) (h : O
         intro e; subst e; exact hne m0 preds0 ph0 tot0 hpk
       rw [block_doWork orc hpk]
       rcases ot_doWork_tasks s p.wake orc t0 m0 preds0 ph0 tot0 with e | ⟨F, hF, e⟩
-      · refine ⟨rec0, ?_, rfl⟩
+      · refine ⟨rec0, ?_, rfl, rfl⟩
         unfold task? at hrec0 ⊢
         rw [e]; exact hrec0
-      · refine ⟨rec0, ?_, rfl⟩
+      · refine ⟨rec0, ?_, rfl, rfl⟩
         have h1 := task?_updTask_ne s F hF (fun e => ht0 e.symm)
         unfold task? at hrec0 h1 ⊢
         rw [e, h1]; exact hrec0
     · obtain ⟨rec, hrec, hsp⟩ := (block_spanStep s hs.pw p orc htag).fwd _ rec0 hrec0
-      exact ⟨rec, hrec, hsp.ast⟩
+      exact ⟨rec, hrec, hsp.ast, hsp.aft⟩
   constructor
   · -- deadPh
     intro r hr o i m c ph tot hk hra
@@ -260,7 +267,7 @@ theorem otBody_step {s : Sys} (hs : SInv s) (hti : ILTI s) (hA : OtAst s) (h : O
         · rw [(dwEndF_spec p.wake tot0 rec0).2.2.2.1]; exact hra
     · obtain ⟨ob, a, rec0, hob, hast, hwk, hrec0, hra⟩ := h.started r hr0 o i m c ph tot hk h2
       obtain ⟨ob', hob', hast', hdur'⟩ := hobsKeep o ob a hob hast
-      obtain ⟨rec, hrec, hrast⟩ := hrecKeep o i rec0 hrec0 (by
+      obtain ⟨rec, hrec, hrast, _⟩ := hrecKeep o i rec0 hrec0 (by
         intro m' preds' ph' tot' hpk
         exact hrne (hs.dg.dwUniq r hr0 p hpm _ _ _ _ _ _ _ _ _ hk hpk))
       exact ⟨ob', a, rec, hob', hast', by rw [hdur']; exact hwk, hrec, by rw [hrast]; exact hra⟩
@@ -332,9 +339,38 @@ theorem otBody_step {s : Sys} (hs : SInv s) (hti : ILTI s) (hA : OtAst s) (h : O
         · have hfr := (block_spanStep s hs.pw p orc htag).fresh _ rec h0r hrec'
           rw [hfr.ast] at hx; cases hx
       | some rec0 =>
-        obtain ⟨rec', hrec'', hra⟩ := hrecKeep o i rec0 h0r hne
+        obtain ⟨rec', hrec'', hra, _⟩ := hrecKeep o i rec0 h0r hne
         rw [hrec] at hrec''; cases hrec''
         exact hold ⟨rec0, h0r, by rw [← hra]; exact hx⟩
+  · -- ended (F13)
+    intro r hr o i m c ph tot hk hra
+    rcases (hm r).mp hr with rfl | ⟨hr0, hrne⟩ | hrn
+    · simp only [fin_k] at hk
+      have htag := block_tag s hs.pw p orc
+      rw [hk] at htag
+      cases hpk : p.k <;> rw [hpk] at htag <;> simp [PK.tag] at htag
+      rename_i t0 m0 preds0 ph0 tot0
+      obtain ⟨_, _, _, ph', tot', g4⟩ := il_doWorkBlock_fields s p.wake orc t0 m0 preds0 ph0 tot0
+      have hk' := hk
+      rw [block_doWork orc hpk, g4] at hk'
+      injection hk' with e1 e2 e3 e4 e5
+      subst e1
+      obtain ⟨_, ob, a, hob, hast, hw0, hor⟩ := hbody o i m0 preds0 ph0 tot0 hpk
+      rcases hor with ⟨_, _, hy, _⟩ | ⟨h2', _, hy, htk⟩
+      · rw [hy] at hra; simp [ha] at hra
+      · obtain ⟨_, _, rec0, _, _, _, hrec0, _⟩ := h.started p hpm o i m0 preds0 ph0 tot0 hpk h2'
+        refine ⟨dwEndF p.wake tot0 rec0, ?_, ?_⟩
+        · rw [htask?]
+          have := task?_updTask_eq s (dwEndF p.wake tot0) (fun r => (dwEndF_spec p.wake tot0 r).1) hrec0
+          unfold task? at this ⊢
+          rw [htk]; exact this
+        · rw [(dwEndF_spec p.wake tot0 rec0).2.2.2.2.2, hy]; rfl
+    · obtain ⟨rec0, hrec0, haft0⟩ := h.ended r hr0 o i m c ph tot hk hra
+      obtain ⟨rec, hrec, _, hraft⟩ := hrecKeep o i rec0 hrec0 (by
+        intro m' preds' ph' tot' hpk
+        exact hrne (hs.dg.dwUniq r hr0 p hpm _ _ _ _ _ _ _ _ _ hk hpk))
+      exact ⟨rec, hrec, by rw [hraft]; exact haft0⟩
+    · rw [(hnewp r hrn).1] at hra; cases hra
 
 end Sys
 
@@ -344,8 +380,8 @@ theorem sim_otBody (env : SimEnv) (s0 : Sys) (hw : WFConfig s0) (k : SimState) (
     k.st.crashed = none → OtBody k.st := by
   refine SimReach.sys_induct hw (fun s => s.crashed = none → OtBody s) (fun _ => otBody_start s0 hw)
     (fun s hs hc => ?_) (fun s hs hc => ?_) ?_ k h
-  · have := hs hc; exact ⟨this.deadPh, this.started, this.recAst⟩
-  · have := hs hc; exact ⟨this.deadPh, this.started, this.recAst⟩
+  · have := hs hc; exact ⟨this.deadPh, this.started, this.recAst, this.ended⟩
+  · have := hs hc; exact ⟨this.deadPh, this.started, this.recAst, this.ended⟩
   · intro k hr ih pid p hp ha hen hc
     have hinv := hr.l3inv hw
     obtain ⟨p', hp', _, hmin⟩ := hen
